@@ -304,7 +304,8 @@ def _too_long_exit(path, a0, kind):
         return False
     for c in path.conds:
         c = table.norm_atom(table.strip_gargs(c))
-        if c[0] == "lt" and c[1] == ("len", a0) and c[2][0] == "len" and _is_norm_pattern(c[2][1], 2):
+        hay = {("len", a0), ("len", a0[1])} if a0[0] == "as_bytes" else {("len", a0)}      # len(s.as_bytes()) is len(s)
+        if c[0] == "lt" and c[1] in hay and c[2][0] == "len" and (_is_norm_pattern(c[2][1], 2) or _is_norm_pattern(("as_bytes", c[2][1]), 2)):
             return True
     return False
 
